@@ -10,6 +10,18 @@ PBT = "Hypothesis property-based testing against an independent reference model"
 
 CHECKS = [
     {
+        "id": "C10",
+        "technique": "complete structural sweep of the definition tables + PBT with pinned standard length formulas (black-box bit-exact length probe) + metamorphic sibling relations on generated block bits",
+        "text": "Every identity of the three tables and of a pinned roster is walked by the independent interpreter and decoded by the parser (complete); for generated repeat counts the bits consumed are compared bit-exactly with pinned RTCM 10403.3 / IGS SSR v1 formulas; sibling families (orbit+clock vs combined for GPS, GLONASS and six IGS constellations, extended vs basic observables, MSM per level across seven constellations, IGS sub-types across constellations) must decode identical bits to identical values and names.",
+        "note": "Length and width pins are the harness's transcription of the standards (three-way cross-checked), not the PDFs.",
+    },
+    {
+        "id": "C19",
+        "technique": PBT + " (the interpreter knows the originating field key and index tuple of every generated name) + complete static sweep of the definitions",
+        "text": "datadesc / att2idx / att2name are evaluated on every attribute name of generated messages of every identity (two- and three-digit indices, two nesting levels) and on every field key of every definition with synthetic 1/2/3-digit indices at its nesting depth; expected results come from the interpreter's knowledge of key and indices.",
+        "note": "Nothing is asserted about att2idx / att2name on un-indexed names.",
+    },
+    {
         "id": "C09",
         "technique": PBT + " (reference mask decoder on pinned bit offsets with pinned PRN numbering and RINEX code tables) + complete single-bit mask enumeration",
         "text": "All 49 MSM types x generated satellite / signal / cell masks x both label options, plus every single-bit satellite x signal mask pair per constellation; counts, PRN labels, satellite-major cell mapping, RINEX codes and the N/A marker are judged by a reference decoder that reads the masks at pinned bit offsets and uses tables written out in the harness.",
